@@ -21,7 +21,7 @@ type c17DpopCase struct {
 }
 
 func c17DpopGen(t *rapid.T) c17DpopCase {
-	return c17DpopCase{V: jose.Gen(t, jose.GenOpts{Refs: []string{"jwk"}})}
+	return c17DpopCase{V: jose.Gen(t, jose.GenOpts{Refs: []string{"jwk"}, JWKMeta: true})}
 }
 
 func c17DpopRun(x *h.Ctx, c c17DpopCase) {
